@@ -209,6 +209,7 @@ retry_fetch_lv:
                 auto* thin = reinterpret_cast<thread_info*>(token); // NOLINT
                 if (old_v != nullptr) {
                     auto [o_ptr, o_len, o_align] = value::get_gc_info(old_v);
+                    YAKUSHIMA_VERIF_POINT(RETIRE_VALUE, o_ptr);
                     thin->get_gc_info().push_value_container(
                             {thin->get_begin_epoch(), o_ptr, o_len, o_align});
                 }
